@@ -547,6 +547,13 @@ fn network_case(rng: &mut Rng, idx: u64, out: &mut Out) {
         s
     };
     let refs = if true_loss { ref_param_grads(&cfg, &params, &x, &scalar_loss) } else { ref_param_grads(&cfg, &params, &x, &scalar_sur) };
+    // preparatory training may have driven the parameters towards overflow (derivatives beyond
+    // the single-precision range): nothing is claimed there
+    if pretrained && refs.iter().any(|(_, d)| !(d.d.abs() < 1e30) || !(d.m < 1e30)) {
+        out.nontrivial = false;
+        out.count("pretrained_instances_not_well_conditioned", 1);
+        return;
+    }
     // one learn() step couples the copies of a feedback block by the mean: the observable
     // parameter change is the mean of the per-copy gradients
     let refs: Vec<((usize, usize, usize), D)> = if via_learn {
